@@ -38,6 +38,12 @@ def c19_jobs(tier):
     sizes = _avl_sizes()
     nshape = 20 if tier == "quick" else len(sizes)
     jobs = []
+    if tier == "quick":
+        # one Delete / Insert from every height-4 shape as well: rebalancing that
+        # has to propagate through an ancestor first shows at this height
+        for sh in range(20, len(sizes)):
+            for op in (0, 1):
+                jobs.append({"func": "verif_C19_step", "args": [sh, op], "tag": f"shape={sh} n={sizes[sh]}"})
     for sh in range(nshape):
         n = sizes[sh]
         for op in (0, 1):
@@ -52,6 +58,14 @@ def c19_jobs(tier):
                 for j in js:
                     jobs.append({"func": "verif_C19_iter", "args": [sh, op, j, frm]})
         jobs.append({"func": "verif_C19_reach", "args": [sh]})
+        # two mutations between two Next() calls
+        for seq in (0, 1):
+            for j in range(n):
+                if sh >= 20 and j not in (0, n // 2, n - 1):
+                    continue
+                jobs.append({"func": "verif_C19_iter2", "args": [sh, j, seq, 1]})
+                if n <= 3 or (tier != "quick" and sh < 20):
+                    jobs.append({"func": "verif_C19_iter2", "args": [sh, j, seq, 0]})
     return jobs
 
 
@@ -60,15 +74,84 @@ PROPS["C19"] = {
     "patterns": ["."],
     "mode": "fp", "intmode": "int",
     "jobs": c19_jobs,
-    "reach": ["after-op", "after-probe", "mutated-under-iterator", "built"],
-    "selftest_vars": ["key", "k", "q", "lb"],
-    "selftest_kinds": {"key": (-50, 50), "k": (-50, 50), "q": (-50, 50), "lb": (-50, 50)},
-    "bounds": {"quick": "every AVL shape of height <= 3 (20 shapes, <= 7 nodes), keys symbolic mathematical integers, one Insert/Delete, "
-                        "iterator advanced 0..n steps before the mutation",
+    "reach": ["after-op", "after-probe", "mutated-under-iterator", "mutated-twice-under-iterator", "built"],
+    "selftest_vars": ["key", "k", "q", "lb", "k1", "k2"],
+    "selftest_kinds": {"key": (-50, 50), "k": (-50, 50), "q": (-50, 50), "lb": (-50, 50), "k1": (-50, 50), "k2": (-50, 50)},
+    "bounds": {"quick": "one Insert/Delete from every AVL shape of height <= 4 (335 shapes, <= 15 nodes); probes, clones and live iterators "
+                        "(advanced 0..n steps, one mutation; two mutations incl. delete+re-insert of one key) from every shape of height <= 3; keys symbolic mathematical integers",
                "thorough": "every AVL shape of height <= 4 (335 shapes, <= 15 nodes)"},
     "outside": "trees taller than the bound except through the induction argument (every AVL shape is a reachable pre-state); "
                "keys at the int64 boundary (cursor value + 1 overflows); more than one mutation between two Next() calls",
     "assumptions": ["ints are encoded as mathematical integers: keys range over all of Z, which coincides with int64 behaviour "
                     "while no key equals MaxInt64 (the iterator computes value+1)",
                     "pre-states are AVL literals; verif_C19_reach shows each literal is what public Insert calls build"],
+}
+
+# ----------------------------------------------------------------------------- C10
+import os as _os
+_H = _os.path.join(_os.path.dirname(_os.path.abspath(__file__)), "harness")
+VIEWS = ("root/zz_verif_views.go", "zz_verif_views.go")
+
+
+def _c10_hdr(mtype, transposable):
+    frag = open(_os.path.join(_H, "tmpl", "c10_transpose.frag")).read() if transposable else ""
+    return ("tmpl/zz_verif_c10_header.go.tmpl", f"zz_verif_c10_header_{mtype}.go", {
+        "TRANSPOSE_HARNESS": frag,
+        "TRANSPOSE_REGISTER": 'VerifRegister("verif_C10_T_MTYPE", func(a []int) { verif_C10_T_MTYPE(a[0]) })' if transposable else "",
+        "TRANSPOSED_SET": "m.transposed = tr == 1" if transposable else "_ = tr",
+        # ij() is dead code in the dense matrices (no caller), so only the sparse
+        # instantiations, whose iterators report positions through it, assert it
+        "IJ_CHECK": "" if transposable else 'a, b := m.ij(k)\n\tVerifAssert("ij-inverts-index:i", a == i)\n\tVerifAssert("ij-inverts-index:j", b == j)',
+        "MTYPE": mtype,
+    })
+
+
+C10_DENSE = ["DenseFloat64Matrix", "DenseReal64Matrix", "DenseFloat32Matrix", "DenseReal32Matrix", "DenseIntMatrix"]
+C10_SPARSE = ["SparseFloat64Matrix", "SparseReal64Matrix"]
+C10_NOPS = 18
+
+
+def c10_jobs(tier):
+    jobs = []
+    for mt in C10_DENSE:
+        for tr in (0, 1):
+            for f in ("index", "slice", "T"):
+                jobs.append({"func": f"verif_C10_{f}_{mt}", "args": [tr], "selftest": False})
+    for mt in C10_SPARSE:
+        for f in ("index", "slice"):
+            jobs.append({"func": f"verif_C10_{f}_{mt}", "args": [0], "selftest": False})
+    kinds = [0, 1, 2, 3] if tier == "quick" else [0, 1, 2, 3, 4, 5, 6, 7]
+    shapes = [(3, 3)] if tier == "quick" else [(3, 3), (3, 4), (2, 3)]
+    for kind in kinds:
+        for (R, C) in shapes:
+            vks = [0, 1, 2, 3, 4, 6] if tier == "quick" else [0, 1, 2, 3, 4, 5, 6, 7]
+            for vk in vks:
+                for op in range(C10_NOPS):
+                    masks = [0]
+                    if op in (0, 4, 16, 12) or tier != "quick":
+                        masks = [0, 0b010110010 & ((1 << (R * C)) - 1)]
+                    for zm in masks:
+                        jobs.append({"func": "verif_C10_ops", "args": [kind, vk, op, R, C, zm],
+                                     "tag": f"kind={kind} view={vk} op={op} {R}x{C} zmask={zm:b}"})
+            jobs.append({"func": "verif_C10_tip", "args": [kind, R, C]})
+            if R != C:
+                jobs.append({"func": "verif_C10_tip", "args": [kind, C, R]})
+    return jobs
+
+
+PROPS["C10"] = {
+    "overlay": [RT, VIEWS, ("root/zz_verif_c10.go", "zz_verif_c10.go")]
+    + [_c10_hdr(t, True) for t in C10_DENSE] + [_c10_hdr(t, False) for t in C10_SPARSE],
+    "mode": "fp", "intmode": "int",
+    "jobs": c10_jobs,
+    "reach": ["inside", "outside", "slice", "T", "view-built", "tip"],
+    "selftest_vars": ["v", "s", "a", "b", "c", "x", "y", "w", "r0", "dr", "c0", "dc"],
+    "selftest_kinds": {"r0": (0, 1), "dr": (0, 1), "c0": (0, 1), "dc": (0, 1)},
+    "bounds": {"quick": "layer 1: headers with all extents symbolic in [0,2^20] (Int/NIA), dense Float64/Real64/Float32/Real32/Int and sparse Float64/Real64; "
+                        "layer 2: 3x3 parents, symbolic finite non-zero elements plus one interleaved zero pattern, Slice/T compositions of depth <= 2 with all slice bounds, 18 operation groups, "
+                        "dense+sparse Float64/Real64",
+               "thorough": "layer 2 also 3x4 and 2x3 parents, depth-3 composition S;T;S, Float32/Real32 kinds, zero pattern on every operation"},
+    "outside": "printing/Table/Export of views (string formatting); parents larger than 3x4; JSON of views is covered under C18",
+    "assumptions": ["header extents <= 2^20 so the Int encoding coincides with int64 arithmetic (largest product < 2^41)",
+                    "map iteration order modelled as ascending key order"],
 }
